@@ -187,7 +187,7 @@ def run(ctx, rep):
             if s.kind == "assign" and s.rv is not None and s.rv.kind == "binop" and s.rv.op.startswith("Add"):
                 e = fc.rv_expr(s)
                 a, b = E.strip_casts(e[2]), E.strip_casts(e[3])
-                if b == ("const", 4) and E.mentions_call(a, "try_read_from_bytes"):
+                if (b == ("const", 4) and E.mentions_call(a, "try_read_from_bytes")) or (a == ("const", 4) and E.mentions_call(b, "try_read_from_bytes")):
                     ok = True
         adder(rep, dec)("R08f", "%s: inline QoS offset is octetsToInlineQos + 4 (extraFlags and the offset field itself)" % ty, ok, "the decoder does not add 4 to octetsToInlineQos")
     # R08c
@@ -301,7 +301,8 @@ def run(ctx, rep):
             if a[0] in ("bin", "ckd") and a[1] == "Sub":
                 r = E.strip_casts(a[3])
                 l = E.strip_casts(a[2])
-                if r[0] in ("bin", "ckd") and r[1] == "Add" and E.strip_casts(r[3]) == ("const", 4) and E.is_call(E.strip_casts(r[2]), "position") and E.is_call(l, "position"):
+                r2, r3 = (E.strip_casts(r[2]), E.strip_casts(r[3])) if r[0] in ("bin", "ckd") else (None, None)
+                if r[0] in ("bin", "ckd") and r[1] == "Add" and ((r3 == ("const", 4) and E.is_call(r2, "position")) or (r2 == ("const", 4) and E.is_call(r3, "position"))) and E.is_call(l, "position"):
                     ok = True
         adder(rep, b)("R08g", "submessage length written = position after the elements - (header position + 4)", ok, "length expression has another shape")
 
